@@ -4,7 +4,8 @@
    Structure:
      1. the edge set of the model graph, as a set comprehension (AddDependency / the four folds);
      2. the edge set of the specification;
-     3. file-system facts following from project_shape (one module per name, packages have parents);
+     3. file-system facts following from project_shape (one module per name; a directory named like a
+        standard-library module is a package if it holds a module);
      4. relative imports: resolveRelativeImport = _resolve_name                    (all inputs);
      5. absolute imports: resolveAbsoluteImportWithProject under abs_ok            (all inputs);
      6. re-exports: ResolveReExport against reexport_py for a regular __init__     (all inputs);
@@ -111,7 +112,7 @@ Definition adds_import (pr : project) (m : pymodule) (ii : import_info) (e : edg
   ii_tc ii = false /\ exists r, In r (resolved_modules pr (empty_graph pr) m ii) /\ adds_target pr m r e.
 
 Definition adds_module (pr : project) (m : pymodule) (e : edge) : Prop :=
-  exists ii, In ii (collectModuleImports m) /\ adds_import pr m ii e.
+  shadowed pr m = false /\ exists ii, In ii (collectModuleImports m) /\ adds_import pr m ii e.
 
 Lemma analyze_import_edges : forall pr m g ii, g_nodes g = module_names pr ->
   g_nodes (analyze_import pr m g ii) = module_names pr /\
@@ -135,13 +136,16 @@ Lemma analyze_module_edges : forall pr g m, g_nodes g = module_names pr ->
   g_nodes (analyzeModuleDependencies pr g m) = module_names pr /\
   forall e, In e (g_edges (analyzeModuleDependencies pr g m)) <-> In e (g_edges g) \/ adds_module pr m e.
 Proof.
-  intros pr g m Hg. unfold analyzeModuleDependencies, adds_module.
-  apply (fold_edges (module_names pr) (analyze_import pr m) (adds_import pr m)); [|exact Hg].
-  intros g0 ii Hg0. apply analyze_import_edges. exact Hg0.
+  intros pr g m Hg. unfold analyzeModuleDependencies, adds_module. destruct (shadowed pr m).
+  - split; [exact Hg|]. intro e. split; [auto|]. intros [H|[H _]]; [exact H|discriminate].
+  - destruct (fold_edges (module_names pr) (analyze_import pr m) (adds_import pr m)) with (l := collectModuleImports m) (g := g)
+      as [Hn He]; [|exact Hg|].
+    + intros g0 ii Hg0. apply analyze_import_edges. exact Hg0.
+    + split; [exact Hn|]. intro e. rewrite He. split; (intros [H|H]; [auto|right]); tauto.
 Qed.
 
 Theorem edges_model_spec : forall pr e, In e (edges_model pr) <->
-  exists m ii r, In m pr /\ In ii (collectModuleImports m) /\ ii_tc ii = false /\
+  exists m ii r, In m pr /\ shadowed pr m = false /\ In ii (collectModuleImports m) /\ ii_tc ii = false /\
     In r (resolved_modules pr (empty_graph pr) m ii) /\
     (m_is_pkg m && strict_prefixb (m_path m) r) = false /\
     e = (m_path m, r) /\ is_module pr r = true /\ m_path m <> r.
@@ -152,9 +156,10 @@ Proof.
   - intros g m Hg. apply analyze_module_edges. exact Hg.
   - reflexivity.
   - rewrite He. simpl. split.
-    + intros [[]|[m [Hm [ii [Hii [Htc [r [Hr [Hskip [Heq [_ [Hmr Hne]]]]]]]]]]]].
+    + intros [[]|[m [Hm [Hsh [ii [Hii [Htc [r [Hr [Hskip [Heq [_ [Hmr Hne]]]]]]]]]]]]].
       exists m, ii, r. repeat split; auto.
-    + intros [m [ii [r [Hm [Hii [Htc [Hr [Hskip [Heq [Hmr Hne]]]]]]]]]]. right. exists m. split; [exact Hm|].
+    + intros [m [ii [r [Hm [Hsh [Hii [Htc [Hr [Hskip [Heq [Hmr Hne]]]]]]]]]]]. right. exists m. split; [exact Hm|].
+      split; [exact Hsh|].
       exists ii. split; [exact Hii|]. split; [exact Htc|]. exists r. split; [exact Hr|].
       repeat split; auto. apply mem_path_In. unfold module_names. apply in_map. exact Hm.
 Qed.
@@ -185,25 +190,41 @@ Proof. intros pr H. unfold project_shape in H. apply andb_true_iff in H. apply H
 
 Lemma shape_module : forall pr m, project_shape pr = true -> In m pr ->
   m_path m <> [] /\
-  (length (m_path m) <= 1 \/ init_file_exists pr (removelast (m_path m)) = true) /\
+  (length (m_path m) <= 1 \/ init_file_exists pr (removelast (m_path m)) = true \/ isStandardLibrary (m_path m) = false) /\
   forall s, In s (m_imports m) -> stmt_shape s = true.
 Proof.
   intros pr m H Hm. unfold project_shape in H. apply andb_true_iff in H. destruct H as [_ H].
   rewrite forallb_forall in H. specialize (H m Hm). apply andb_true_iff in H. destruct H as [H H3].
   apply andb_true_iff in H. destruct H as [H1 H2]. split; [|split].
   - intro E. rewrite E in H1. discriminate.
-  - apply orb_true_iff in H2. destruct H2 as [H2|H2]; [left; apply Nat.leb_le; exact H2|right; exact H2].
+  - apply orb_true_iff in H2. destruct H2 as [H2|H2]; [apply orb_true_iff in H2; destruct H2 as [H2|H2]|].
+    + left. apply Nat.leb_le. exact H2.
+    + right. left. exact H2.
+    + right. right. apply negb_true_iff. exact H2.
   - rewrite forallb_forall in H3. exact H3.
 Qed.
 
-(* a module below a directory makes the directory a package *)
-Lemma shape_parent : forall pr p n, project_shape pr = true -> p <> [] ->
+Lemma isStandardLibrary_snoc : forall p n, p <> [] -> isStandardLibrary (p ++ [n]) = isStandardLibrary p.
+Proof. intros [|a p] n H; [congruence|reflexivity]. Qed.
+
+(* a module below a directory named like a standard-library module makes the directory a package *)
+Lemma shape_parent : forall pr p n, project_shape pr = true -> p <> [] -> isStandardLibrary p = true ->
   is_module pr (p ++ [n]) = true -> is_module pr p = true.
 Proof.
-  intros pr p n H Hp Hm. apply is_module_In in Hm. destruct Hm as [m [Hm Hpath]].
-  destruct (shape_module pr m H Hm) as [_ [[Hl|Hi] _]].
+  intros pr p n H Hp Hstd Hm. apply is_module_In in Hm. destruct Hm as [m [Hm Hpath]].
+  destruct (shape_module pr m H Hm) as [_ [[Hl|[Hi|Hs]] _]].
   - rewrite Hpath, app_length in Hl. simpl in Hl. destruct p; [congruence|simpl in Hl; lia].
   - rewrite Hpath, removelast_last in Hi. apply init_is_module. exact Hi.
+  - rewrite Hpath, (isStandardLibrary_snoc p n Hp), Hstd in Hs. discriminate.
+Qed.
+
+(* the former, stricter shape (every directory with a module is a package) is a special case *)
+Lemma project_shape_strict_shape : forall pr, project_shape_strict pr = true -> project_shape pr = true.
+Proof.
+  intros pr H. unfold project_shape_strict in H. unfold project_shape. apply andb_true_iff in H. destruct H as [Hn H].
+  rewrite Hn. cbn [andb]. rewrite forallb_forall in *. intros m Hm. specialize (H m Hm).
+  apply andb_true_iff in H. destruct H as [H H3]. apply andb_true_iff in H. destruct H as [H1 H2].
+  rewrite H1, H2, H3. reflexivity.
 Qed.
 
 (* one module per name *)
@@ -260,6 +281,12 @@ Proof.
     rewrite Hp in F1. rewrite F1 in F2. inversion F2. subst. congruence.
 Qed.
 
+(* one file per module name: no file is shadowed by a package of its name *)
+Lemma nodup_not_shadowed : forall pr m, nodup_paths (module_names pr) = true -> In m pr -> shadowed pr m = false.
+Proof.
+  intros pr m Hn Hm. unfold shadowed. rewrite (init_file_exists_pkg pr m Hn Hm). destruct (m_is_pkg m); reflexivity.
+Qed.
+
 (* ---------------------------------------------------------------------------------------- *)
 (* 4. relative imports: resolveRelativeImport is _resolve_name, for every module, level, name *)
 (* ---------------------------------------------------------------------------------------- *)
@@ -306,23 +333,24 @@ Proof.
 Qed.
 
 Lemma resolveAbsoluteImport_not_module : forall pr p, is_module pr p = false ->
-  resolveAbsoluteImport pr p = Some p \/ resolveAbsoluteImport pr p = None.
+  resolveAbsoluteImport pr p = Some p \/ (isStandardLibrary p = true /\ resolveAbsoluteImport pr p = None).
 Proof.
   intros pr p H. unfold resolveAbsoluteImport. rewrite <- py_or_init in H. apply orb_false_iff in H.
   destruct H as [H1 H2]. rewrite H1, H2.
-  destruct (isStandardLibrary p); [destruct include_stdlib|destruct include_third_party]; auto.
+  destruct (isStandardLibrary p); [right; split; reflexivity|]. left. destruct (dir_exists pr p); reflexivity.
 Qed.
 
-(* the import resolves to the module of that name, or to something that is not a project module *)
+(* the import resolves to the module of that name, or to something that is not a project module; to nothing only
+   when the name is one of the standard library's (include_stdlib is off, include_third_party on) *)
 Theorem absolute_import_agrees : forall pr m p, p <> [] -> abs_ok pr m p = true ->
   resolveAbsoluteImportWithProject pr m p = Some p \/
-  (is_module pr p = false /\ resolveAbsoluteImportWithProject pr m p = None).
+  (is_module pr p = false /\ isStandardLibrary p = true /\ resolveAbsoluteImportWithProject pr m p = None).
 Proof.
   intros pr m p Hp Hok. unfold resolveAbsoluteImportWithProject. destruct p as [|x p']; [congruence|].
   set (p := x :: p') in *. cbn [first_some]. unfold abs_ok in Hok.
   destruct (dir_of m) as [|a d] eqn:Ed.
   - rewrite !search_in_spec. simpl app. destruct (is_module pr p) eqn:Em; [left; reflexivity|].
-    cbn [parent_dir search_in]. destruct (resolveAbsoluteImport_not_module pr p Em) as [H|H]; rewrite H; auto.
+    cbn [parent_dir search_in]. destruct (resolveAbsoluteImport_not_module pr p Em) as [H|[Hs H]]; rewrite H; auto.
   - apply andb_true_iff in Hok. destruct Hok as [H1 H2]. apply negb_true_iff in H1.
     rewrite !search_in_spec, H1. simpl app. destruct (is_module pr p) eqn:Em; [left; reflexivity|].
     cbn [parent_dir]. rewrite search_in_spec.
@@ -330,7 +358,7 @@ Proof.
     { simpl orb in H2. apply orb_true_iff in H2. destruct H2 as [H2|H2].
       - apply Nat.leb_le in H2. destruct d; [simpl; exact Em|simpl in H2; lia].
       - apply negb_true_iff in H2. exact H2. }
-    rewrite Hpar. destruct (resolveAbsoluteImport_not_module pr p Em) as [H|H]; rewrite H; auto.
+    rewrite Hpar. destruct (resolveAbsoluteImport_not_module pr p Em) as [H|[Hs H]]; rewrite H; auto.
 Qed.
 
 (* ---------------------------------------------------------------------------------------- *)
@@ -678,7 +706,7 @@ Proof.
     assert (Hok : abs_ok pr m p = true).
     { apply (abs_ok_of pr m p Himp Hm). unfold abs_paths. apply in_flat_map. exists s. rewrite Ef. simpl. auto. }
     unfold resolve_py. rewrite Ef. change (Nat.ltb 0 0) with false. cbn [andb].
-    destruct (absolute_import_agrees pr m p Hp Hok) as [H|[Hnm H]]; rewrite H.
+    destruct (absolute_import_agrees pr m p Hp Hok) as [H|[Hnm [_ H]]]; rewrite H.
     + destruct (is_module pr p) eqn:Em; simpl.
       * split; [intros [H1|[]]; subst; auto|intros [_ [H1|[]]]; auto].
       * split; [intros []|intros [H1 [H2|[]]]; subst; congruence].
@@ -690,13 +718,13 @@ Proof.
     { apply (abs_ok_of pr m p Himp Hm). unfold abs_paths. apply in_flat_map. exists s. rewrite Ef. simpl. auto. }
     rewrite (resolve_py_from pr m s p ns) by (rewrite Ef; reflexivity).
     change (Nat.ltb 0 0) with false. rewrite Hns. cbn [andb].
-    destruct (absolute_import_agrees pr m p Hp' Hok) as [H|[Hnm H]]; rewrite H.
+    destruct (absolute_import_agrees pr m p Hp' Hok) as [H|[Hnm [Hstd H]]]; rewrite H.
     + apply names_agree. intro n. apply Hname.
     + simpl. split; [|tauto]. intro Hr. exfalso. apply filter_In in Hr. destruct Hr as [Hr Hmod].
       apply in_map_iff in Hr. destruct Hr as [x [Hx _]]. unfold resolve_name_py, reexport_py in Hx.
       rewrite (find_module_None pr p Hnm) in Hx.
       destruct (is_module pr (p ++ [in_orig x])) eqn:Esub.
-      * rewrite (shape_parent pr p (in_orig x) Hshape Hp' Esub) in Hnm. discriminate.
+      * rewrite (shape_parent pr p (in_orig x) Hshape Hp' Hstd Esub) in Hnm. discriminate.
       * subst r. congruence.
   - (* from <dots>q import ns *)
     apply andb_true_iff in Hst. destruct Hst as [Hlv Hns]. rewrite Hlv, Hns, relative_import_agrees. cbn [andb].
@@ -715,7 +743,7 @@ Theorem edges_agree_general : forall pr, project_shape pr = true -> class_implic
 Proof.
   intros pr Hshape Himp Hall Hreg Hnb e. pose proof (shape_nodup pr Hshape) as Hn.
   rewrite edges_model_spec. unfold drop_own. rewrite filter_In, edges_py_spec. split.
-  - intros [m [ii [r [Hm [Hii [Htc [Hr [Hskip [Heq [Hmr Hne]]]]]]]]]].
+  - intros [m [ii [r [Hm [_ [Hii [Htc [Hr [Hskip [Heq [Hmr Hne]]]]]]]]]]].
     unfold collectModuleImports in Hii. apply in_flat_map in Hii. destruct Hii as [s [Hs Hii]].
     split.
     + exists m, s, r. rewrite <- (collect_one_tc s ii Hii). repeat split; auto.
@@ -724,6 +752,7 @@ Proof.
   - intros [[m [s [r [Hm [Hs [Htc [Hr [Hne Heq]]]]]]]] Hf].
     apply (stmt_agrees pr Hshape Himp Hall Hreg Hnb m s Hm Hs r) in Hr. destruct Hr as [Hmr [ii [Hii Hr]]].
     exists m, ii, r. rewrite (collect_one_tc s ii Hii). repeat split; auto.
+    + apply nodup_not_shadowed; assumption.
     + unfold collectModuleImports. apply in_flat_map. exists s. auto.
     + subst e. cbn [fst snd] in Hf. rewrite (init_file_exists_pkg pr m Hn Hm) in Hf. apply negb_true_iff in Hf. exact Hf.
 Qed.
